@@ -68,10 +68,17 @@ func c12Gen(t *rapid.T) MetricCase {
 	var c MetricCase
 	d := datagen.GenMetricDataN(t, 30, false, true, false, 2, 6)
 	opts := datagen.RangeOpts{KeepStage: true, NoOffset: true, Wide: true, Funcs: []string{"count_over_time", "bytes_over_time", "sum_over_time", "max_over_time"}}
+	exact := false // comparisons and % amplify a last-bit difference into 0/1: integer-valued sides only
 	mkSide := func(label string) *gen.Metric {
-		base := datagen.GenRange(t, d, opts, false)
+		o := opts
+		aggs := []string{"sum", "max", "count", "avg"}
+		if exact {
+			o.Funcs = []string{"count_over_time", "bytes_over_time"}
+			aggs = []string{"sum", "max", "count"}
+		}
+		base := datagen.GenRange(t, d, o, false)
 		if rapid.Bool().Draw(t, label+"-agg") {
-			agg := &gen.Metric{Kind: "vecagg", Op: rapid.SampledFrom([]string{"sum", "max", "count", "avg"}).Draw(t, label+"-aggop"), Inner: base}
+			agg := &gen.Metric{Kind: "vecagg", Op: rapid.SampledFrom(aggs).Draw(t, label+"-aggop"), Inner: base}
 			agg.Grouping = &gen.Grouping{Labels: []string{}}
 			for _, l := range append([]string{"id"}, d.GroupLabels...) {
 				if rapid.Bool().Draw(t, label+"-by-"+l) {
@@ -92,6 +99,7 @@ func c12Gen(t *rapid.T) MetricCase {
 	default:
 		m.Op = rapid.SampledFrom(datagen.SetOps).Draw(t, "op")
 	}
+	exact = kind == "cmp" || m.Op == "%"
 	shape := rapid.SampledFrom([]string{"vv", "vv", "vs", "sv"}).Draw(t, "shape")
 	if kind == "set" {
 		shape = "vv"
